@@ -122,6 +122,7 @@ def run(ctx, rep):
         rep.check(bool(tests) and not bad_, 'R-C18-5', 'state_filter: path tests guarding %s' % mark.callee, mark.loc(), 'tests: %s' % [c.callee for c in tests] if not bad_ else 'wrong filter variant: %s' % bad_, function='state_filter', construct='variant for %s' % mark.callee)
     filter_semantics_rule(P, rep)
     nofollow_probe_rule(P, rep, 'R-C18-7', ('filter_existence',), 'the -m / -e existence filters')
+    filter_parity_rule(P, rep, 'R-C18-8')
 
 
 def filter_semantics_rule(P, rep, rid='R-C18-6'):
@@ -287,3 +288,79 @@ def nofollow_probe_rule(P, rep, rid, fnames, why, forbidden=None):
         rep.check(not fol, rid, '%s probes the entry with lstat' % fn, (fol or nof)[0].loc(),
                   '%s' % [c.callee for c in nof] if not fol else '%s(%s) follows symbolic links: a link whose target does not exist is reported as a missing entry, a link to a file as that file' % (fol[0].callee, f.expr(fol[0].ops[0])[:40]),
                   function=fn, construct='existence probe')
+
+
+def filter_parity_rule(P, rep, rid):
+    """state_filter also decides which parity files check / fix may write: with a disk filter (-d) a parity is excluded unless its
+    name matches; without one, every parity is excluded as soon as the selection is by file (-f) or by missing entries (-m), because
+    fixing a few files must not rewrite parity blocks that have nothing to do with them.  The function is interpreted (E10) on an
+    array without data disks (filter_path modelled) for every combination of: file filter list empty / not, disk filter list empty /
+    not, -m, and the answer of the disk filter for each parity name."""
+    from .. import region as RG
+    import itertools
+    f = P.fn('state_filter')
+    rep.analysed(f)
+    rep.rule(rid, 'state_filter over file list x disk list x -m x disk-filter answers: parity excluded iff (disk filter present ? name rejected : (-m or file filter present))', 1)
+    ds = P.distructs.get('snapraid_state'); dp = P.distructs.get('snapraid_parity'); dn = P.distructs.get('tommy_node_struct')
+    if not (ds and dp and dn):
+        raise AnalysisBroken('layouts not found')
+    def off(d, name):
+        return [m for m in d['members'] if m['name'] == name][0]['off']
+    O_LEVEL, O_PAR, O_DISKLIST = off(ds, 'level'), off(ds, 'parity'), off(ds, 'disklist')
+    P_EXC = off(dp, 'is_excluded_by_filter'); P_SIZE = dp['size']
+    N_NEXT, N_DATA = off(dn, 'next'), off(dn, 'data')
+    # parameter roles by position: (state, filterlist_file, filterlist_disk, filter_missing, filter_error)
+    names = [a.get('name') for a in f.args]
+    try:
+        i_file, i_disk, i_miss, i_err = names.index('filterlist_file'), names.index('filterlist_disk'), names.index('filter_missing'), names.index('filter_error')
+    except ValueError:
+        raise AnalysisBroken('state_filter: parameters not recognised (%s)' % names)
+    bad = None; n = 0
+    LEV = 2
+    for has_file, has_disk, miss in itertools.product((0, 1), repeat=3):
+        for ans in itertools.product((0, 1), repeat=LEV):
+            seen = {'k': 0}
+            def ext(ins, args):
+                c = ins.callee
+                if c in ('msg_progress', 'msg_verbose', 'log_tag', 'msg_info'):
+                    return (0,)
+                if c == 'lev_config_name':
+                    return (RG.P_(('str', 'lev%d' % (args[0] & 0xff)), 0),)
+                if c == 'filter_path':
+                    nm = args[2]
+                    if isinstance(nm, RG.P_) and nm.reg[0] == 'str' and nm.reg[1].startswith('lev'):
+                        return (ans[int(nm.reg[1][3:])],)
+                    return (0,)
+                return None
+            R = RG.Region(P, extern=ext)
+            R.discover = []
+            sp = RG.P_(('obj', 'state'), 0); R.zero_regions.add(sp.reg)
+            R.mem[(sp.reg, O_LEVEL)] = LEV
+            R.mem[(sp.reg, O_DISKLIST)] = 0
+            def mklist(tag, nonempty):
+                cell = R.array('list_' + tag, [0], 8)
+                if nonempty:
+                    nd = RG.P_(('obj', 'node_' + tag), 0); R.zero_regions.add(nd.reg)
+                    fl = RG.P_(('obj', 'filter_' + tag), 0); R.zero_regions.add(fl.reg)
+                    R.mem[(nd.reg, N_NEXT)] = 0; R.mem[(nd.reg, N_DATA)] = fl
+                    R.mem[(cell.reg, 0)] = nd
+                return cell
+            args = [0] * len(f.args)
+            args[0] = sp; args[i_file] = mklist('file', has_file); args[i_disk] = mklist('disk', has_disk); args[i_miss] = miss; args[i_err] = 0
+            try:
+                R.run(f, 0, args)
+            except RG.Unsupported as e:
+                raise AnalysisBroken('cannot interpret state_filter: %s' % e)
+            n += 1
+            got = [R.mem.get((sp.reg, O_PAR + l * P_SIZE + P_EXC), 0) for l in range(LEV)]
+            if not (has_file or has_disk or miss):
+                want = [0] * LEV
+            elif has_disk:
+                want = [1 if ans[l] else 0 for l in range(LEV)]
+            else:
+                want = [1 if (miss or has_file) else 0] * LEV
+            if [1 if g else 0 for g in got] != want and bad is None:
+                bad = 'file filter %s, disk filter %s, -m %s, disk filter rejects the parity names %s: parities excluded %s, expected %s%s' % (
+                    'present' if has_file else 'empty', 'present' if has_disk else 'empty', bool(miss), list(ans), got, want,
+                    ' -- with -f alone the parity stays selected and fix rewrites parity blocks outside the selection' if (has_file and not has_disk and want[0] == 1) else '')
+    rep.check(bad is None, rid, 'state_filter: which parity files stay selected', f.file, '%d evaluations' % n if bad is None else bad, function='state_filter', construct='parity exclusion')
